@@ -147,6 +147,7 @@ def run_queries(yp, E, case, exc_obj):
         g = None
         W = E._VERIF_VARIABLES
         before = {id(v) for v in list(W) if v._is_bound} if W is not None else set()
+        yp._verif_findall_inner = False
         try:
             g = yp.query(q[0], objs)
             for x in g:
@@ -174,7 +175,7 @@ def run_queries(yp, E, case, exc_obj):
         leftover = [i for i in range(nq) if T.vars[i]._is_bound]
         leaked = sum(1 for v in list(W) if v._is_bound and id(v) not in before) if W is not None else 0
         out.append({'answers': semcheck.canon_answers(answers), 'values': values, 'count': n, 'end': end, 'same': same,
-                    'leftover': leftover, 'leaked': leaked})
+                    'leftover': leftover, 'leaked': leaked, 'findall_inner': bool(getattr(yp, '_verif_findall_inner', False))})
     return out
 
 def impl(case):
@@ -186,6 +187,7 @@ def impl(case):
     for which in ('B', 'A'):
         cl = case['clauses'] if which == 'B' else rest_clauses(case)
         yp = E.YP()
+        semcheck.watch_findall(yp)       # notices findall results that collect variables created while the goal ran (see semcheck)
         if cl:
             src = ast_io.program_text(cl)
             try:
@@ -298,13 +300,15 @@ def compare(case, io, mo):
 
 def compare_phase(case, ioA, ioB, mo, natives, tagmap=None):
     raising = any(s.get('raise') is not None for s in natives)
-    fa = False      # (kept for replays of older runs: the model's findall/3 now renames the cells of each answer apart)
+    # identity of variables that findall/3 collects from DIFFERENT answers is outside the model's cell naming (semcheck.watch_findall
+    # notices it on the implementation): such a query is compared with the model without variable identity; engine A against B stays exact
     final = ioB is not None
     for q, a0, b0, m in zip(case['queries'], ioA, ioB if final else ioA, mo):
         mn, mc, mnr = view(m[0]), view(m[1]), view(m[3])
         if tagmap is not None and mn['exn'][0] == 'py':
             mn['exn'] = ['py', tagmap[mn['exn'][1]]]      # position in the registered subset -> position in the case
         a, b = a0, b0
+        fa = a0.get('findall_inner') or b0.get('findall_inner')
         if fa:
             mn, mc, mnr = [dict(v, answers=anon(v['answers'])) for v in (mn, mc, mnr)]
             a, b = dict(a0, answers=anon(a0['answers'])), dict(b0, answers=anon(b0['answers']))
